@@ -1,6 +1,6 @@
 (* Props/C01.v — C01: tunnelled TCP payload is delivered intact, in order, to the right peer. *)
 From Coq Require Import List NArith Ascii Bool Lia.
-From SV Require Import Model.StreamQuiet Proofs.Stream_quiet Lib.Bytes Model.Wire Model.Chan Model.Stream
+From SV Require Import Model.StreamQuiet Proofs.Stream_quiet Model.StreamDrain Proofs.Stream_drain Lib.Bytes Model.Wire Model.Chan Model.Stream
   Proofs.Stream_basic Proofs.Stream_wrap Proofs.Stream_cb Proofs.Stream_reg Proofs.Stream_view
   Proofs.Stream_flow Proofs.Stream_props Gen.Consts.
 Import ListNotations.
@@ -68,8 +68,7 @@ Definition c01_eventual_delivery_full : Prop :=
    wait set contains a descriptor that an eager environment would report ready), every byte
    read from the application has been handed to the destination socket, and vice versa —
    unless a socket call of the receiving end failed (abort) or its connect is still pending.
-   What remains unproved of (3) is only that the loops, left alone, REACH such a state
-   (Stream_quiet.eager_drain_full: a decreasing variant for the drain). *)
+   That the loops, left alone, REACH such a state is (3c) below. *)
 Theorem c01_quiescent_all_delivered :
   forall maxc lbs evs w f,
   run (world0 maxc lbs) evs = Ok w -> w_stale w = false -> quiescentb w = true ->
@@ -77,6 +76,44 @@ Theorem c01_quiescent_all_delivered :
   (s_conn (pS (cl w f)) = false -> s_fault (pS (cl w f)) = false -> app_written w f = dst_read w f).
 Proof. exact q_c01_quiescent_all_delivered. Qed.
 Print Assumptions c01_quiescent_all_delivered.
+
+(* (3c) The liveness half, PROVED (Proofs/Stream_drain.v): from every reachable state without stale
+   delivery, an eager environment — no new connections, every recv answers "nothing more", every
+   send accepts everything, every connect completes, no check_fullness — can run the two loops, by an
+   explicit finite schedule (StreamDrain.drain_of, driven by a strictly decreasing variant
+   StreamDrain.mu), to a state in which nothing is pending (or a stale delivery happened); no step of
+   that schedule raises.  With (3b): every byte read from the application before that point has then
+   been handed to the destination socket, and vice versa, unless that socket failed. *)
+Theorem c01_eager_drain :
+  forall maxc lbs evs w, run (world0 maxc lbs) evs = Ok w -> w_stale w = false ->
+  exists drain, Forall eager_event drain /\
+    match run w drain with Ok w' => w_stale w' = true \/ quiescentb w' = true | Crash _ => False end.
+Proof. exact eager_drain. Qed.
+Print Assumptions c01_eager_drain.
+
+Theorem c01_eventual_delivery :
+  forall maxc lbs evs w, run (world0 maxc lbs) evs = Ok w -> w_stale w = false ->
+  exists drain w', Forall eager_event drain /\ run w drain = Ok w' /\
+    (w_stale w' = true \/
+     (quiescent_eagerb w' = true /\
+      forall f, (s_fault (pS (sv w' f)) = false -> dst_written w' f = app_read w f) /\
+                (s_fault (pS (cl w' f)) = false -> app_written w' f = dst_read w f))).
+Proof. exact d_c01_eventual_delivery. Qed.
+Print Assumptions c01_eventual_delivery.
+
+Example c01_ex_drain :
+  match run (world0 65535 32768) d_pending with
+  | Ok w =>
+    w_stale w = false /\ quiescentb w = false /\
+    drain_of w = [EvFlush Client; EvDeliver Server eio; EvCallback Server 0 eio] /\
+    match run w (drain_of w) with
+    | Ok w' => w_stale w' = false /\ quiescent_eagerb w' = true /\
+               dst_written w 0 = [] /\ dst_written w' 0 = q_ab /\ app_read w 0 = q_ab
+    | Crash _ => False
+    end
+  | Crash _ => False
+  end.
+Proof. exact drain_ex_pending. Qed.
 
 (* non-vacuity: a flow that carries bytes end to end in the model *)
 Example c01_ex_transfer :
